@@ -4,7 +4,6 @@ GaphQL types related to introspection queries.
 
 These should be present in all spec compliant servers.
 """
-import json
 from typing import Optional, Union
 
 from .scalars import Boolean, String
@@ -23,6 +22,7 @@ from .types import (
     ObjectType,
     ScalarType,
     UnionType,
+    unwrap_type,
 )
 
 
@@ -303,19 +303,28 @@ __EnumValue__ = ObjectType(
 )  # type: ObjectType
 
 
+# Characters which cannot stand for themselves in a quoted GraphQL string.
+_STRING_ESCAPES = {'"': '\\"', "\\": "\\\\", "\n": "\\n", "\r": "\\r"}
+
+
 def _format_default_value(
     input_value: Union[InputField, Argument]
 ) -> Optional[str]:
     if not input_value.has_default_value:
         return None
     dv = input_value.default_value
-    if isinstance(dv, bool):
-        return str(dv).lower()
-    elif dv is None:
+    if dv is None:
         return "null"
-    elif isinstance(dv, str):
-        return '"%s"' % dv
-    return json.dumps(dv)
+    elif isinstance(dv, str) and not isinstance(
+        unwrap_type(input_value.type), EnumType
+    ):
+        return '"%s"' % "".join(_STRING_ESCAPES.get(c, c) for c in dv)
+
+    # Circular imports.
+    from ..lang.printer import print_ast
+    from ..utilities.ast_node_from_value import ast_node_from_value
+
+    return print_ast(ast_node_from_value(dv, input_value.type))
 
 
 __InputValue__ = ObjectType(
